@@ -279,6 +279,68 @@ def check_float_built(acc, pendulum, loc):
                 acc.mismatch("float-built", f"{loc}/{name.split('/')[0]}/phrase", case, r, w)
 
 
+def _digest(node):
+    """Canonical JSON-able form of a locale table (rule functions are tabulated on 0..200)."""
+    if isinstance(node, dict):
+        return {str(k): _digest(v) for k, v in sorted(node.items(), key=lambda kv: str(kv[0]))}
+    if isinstance(node, (list, tuple)):
+        return [_digest(v) for v in node]
+    if callable(node):
+        out = []
+        for n in range(0, 201):
+            try:
+                out.append(node(n))
+            except Exception as e:  # noqa: BLE001
+                out.append(type(e).__name__)
+        return out
+    return node if isinstance(node, (str, int, float, bool, type(None))) else repr(node)
+
+
+def _tables_fresh(arg):
+    """(fresh interpreter) load and use the locales of arg['order'] one after the other; report the table of every one of
+    them as it stands at the END."""
+    import pendulum
+    from pendulum.locales.locale import Locale
+    x = pendulum.datetime(2016, 8, 28, 7, 3, 6, 123456)
+    y = pendulum.datetime(2016, 8, 20, 19, 3, 6)
+    for loc in arg["order"]:
+        for fn in (lambda: x.format("LLLL LLL LL L LTS LT dddd ddd dd MMMM MMM Do A", locale=loc), lambda: x.diff_for_humans(y, locale=loc),
+                   lambda: y.diff_for_humans(x, locale=loc), lambda: (x - y).in_words(locale=loc), lambda: pendulum.from_format("28 8 2016", "D M YYYY", locale=loc),
+                   lambda: pendulum.set_locale(loc), lambda: x.format("LLLL"), lambda: pendulum.set_locale("en")):
+            try:
+                fn()
+            except Exception:  # noqa: BLE001
+                pass
+    return {loc: _digest(Locale.load(loc)._data) for loc in arg["order"]}
+
+
+def check_locale_tables(acc, pendulum):
+    """The shipped locale data are constants: the table of a locale is the same whether it is the only locale the process ever
+    loads or one of many, loaded and used in either order (no locale's module, and no operation, writes into a table)."""
+    canon = {}
+    for loc in LOCALES:
+        canon[loc] = worker.fresh_call("c18", "_tables_fresh", {"order": [loc]}, {})[loc]
+        acc.c["states"] += 1
+    for oname, order in (("alphabetical", list(LOCALES)), ("reverse", list(reversed(LOCALES)))):
+        got = worker.fresh_call("c18", "_tables_fresh", {"order": order}, {})
+        for loc in LOCALES:
+            acc.c["evaluations"] += 1
+            acc.c["transitions"] += 1
+            if got[loc] != canon[loc]:
+                def flat(d, pre=""):
+                    out = {}
+                    for k, v in (d.items() if isinstance(d, dict) else enumerate(d) if isinstance(d, list) else []):
+                        if isinstance(v, (dict, list)):
+                            out.update(flat(v, f"{pre}{k}."))
+                        else:
+                            out[f"{pre}{k}"] = v
+                    return out
+                fa, fb = flat(got[loc]), flat(canon[loc])
+                keys = sorted(k for k in set(fa) | set(fb) if fa.get(k) != fb.get(k))[:4]
+                acc.mismatch("locale-table", f"{loc}/changed-when-other-locales-are-loaded", {"kind": "tables", "loc": loc, "order": oname},
+                             {k: fa.get(k) for k in keys}, {k: fb.get(k) for k in keys})
+
+
 def check_date_time(acc, pendulum, loc):
     """Date.diff_for_humans and Time.diff_for_humans (explicit other)."""
     d = data(loc)
@@ -730,6 +792,9 @@ def run_shard(shard):
             acc.c["nontrivial"] += 1
         acc.sample({"locale": shard["locales"][0], "in_words": "every subset of 8 components x sign", "tokens": list(TOKENS),
                     "histories": "all orderings of 2 and 3 distinct calls on a cold locale cache"})
+    elif k == "locale-tables":
+        check_locale_tables(acc, pendulum)
+        acc.sample({"locale_tables": "each locale alone in a fresh interpreter vs all locales loaded and used in alphabetical / reverse order"})
     elif k == "sweep":
         for loc in shard["locales"]:
             for start in shard["starts"]:
@@ -794,6 +859,8 @@ def replay_case(case, acc):
         check_direction_data(acc, case["loc"])
     elif k == "mer":
         check_meridiem_hours(acc, pendulum, case["loc"])
+    elif k == "tables":
+        check_locale_tables(acc, pendulum)
     elif k == "fb":
         check_float_built(acc, pendulum, case["loc"])
     elif k == "tok":
@@ -815,6 +882,7 @@ def plan(tier, seed):
         for ch in seeds.chunks(pts, 4):
             shards.append({"kind": "pairs", "locales": [loc], "left": ch})
     shards.append({"kind": "same-instant", "locales": locs})
+    shards.append({"kind": "locale-tables"})
     for st in ((2021, 1, 1), (2020, 1, 31), (2023, 3, 15), (2023, 12, 31 - seed % 3)):
         shards.append({"kind": "sweep", "locales": ["en", rot[0]], "starts": [st], "ndays": 800})
     # unit and count come from precise_diff: the instant pairs also run on its pure-Python twin
